@@ -41,11 +41,13 @@ var cgTables = [][]refmodel.RouteDef{
 	{{Path: "/{all}", Methods: []string{"GET"}}, {Path: "/a/{x}", Methods: []string{"POST"}}, {Path: "/*", Methods: refmodel.Methods}},
 	{{Path: "/a/{x}[/{y}]", Methods: []string{"GET", "DELETE"}}, {Path: "/a/1", Methods: []string{"POST"}}, {Path: "/{x}/1", Methods: []string{"PUT"}}},
 	{{Path: "/a/{f:.+}", Methods: []string{"GET", "PUT"}}, {Path: "/{all}", Methods: []string{"HEAD", "POST"}}},
+	// a single-method route registered before a multi-method route that matches the same paths
+	{{Path: "/a/{n:[a-z]+}", Methods: []string{"POST"}}, {Path: "/a/{x}", Methods: []string{"GET", "POST", "DELETE"}}, {Path: "/{x}/b", Methods: []string{"DELETE", "HEAD"}}},
 }
 
 var cgRequests = []cgReq{
 	{"GET", "/a/1"}, {"GET", "/a/2"}, {"GET", "/a/b"}, {"HEAD", "/a/1"}, {"POST", "/a/1"}, {"DELETE", "/a/1"},
-	{"GET", "/b/1"}, {"HEAD", "/b/1"}, {"GET", "/1"}, {"PUT", "/a/1/"}, {"GET", "/zz/y/x"}, {"GET", "/a/1/"},
+	{"GET", "/b/1"}, {"HEAD", "/b/1"}, {"GET", "/1"}, {"PUT", "/a/1/"}, {"GET", "/zz/y/x"}, {"GET", "/a/1/"}, {"POST", "/a/b"},
 }
 
 var cgRequestsMore = []cgReq{{"GET", "/a/1/2"}, {"OPTIONS", "/a/1"}, {"HEAD", "/1"}}
@@ -299,8 +301,8 @@ var c07Spec = fw.Spec[c07Case]{
 	ID:         "C07",
 	Level:      "model_checking",
 	StateGraph: true,
-	Rule: "explicit-state search to fix-point per configuration (8 route tables x {HandleMethodNotAllowed} x {HandleFallbackRoute} x {StrictLastSlash} x capacities 0..3(4)): state = cache content in recency order with route and params per entry (verif hook); " +
-		"all histories of length <=2 (thorough 3) without state merging, then every reachable state x every request of the alphabet (12 / 15 requests: hits, misses, evictions, HEAD->GET, 405 probes, fallback, 404) executed on the real caching router via Match and ServeHTTP and compared with the non-caching twin; non-trivial = newly reached distinct cache state",
+	Rule: "explicit-state search to fix-point per configuration (9 route tables x {HandleMethodNotAllowed} x {HandleFallbackRoute} x {StrictLastSlash} x capacities 0..3(4)): state = cache content in recency order with route and params per entry (verif hook); " +
+		"all histories of length <=2 (thorough 3) without state merging, then every reachable state x every request of the alphabet (13 / 16 requests: hits, misses, evictions, HEAD->GET, 405 probes, fallback, 404) executed on the real caching router via Match and ServeHTTP and compared with the non-caching twin; non-trivial = newly reached distinct cache state",
 	Assume: []string{
 		"canonical state = cache content only: tables and options are frozen after registration and contexts are reset per request (C10)",
 		"successor = replay of the shortest history on a fresh router plus one request",
